@@ -226,6 +226,82 @@ def harness(args, timeout=None, seed=0):
     return r
 
 
+def harness_eval(requests, name, item_timeout=10.0, mem_gb=4):
+    """Evaluate request lines against the implementation in isolated child processes.
+    Returns the list of expected strings; a request on which the implementation stalls for more than
+    `item_timeout` seconds or dies (abort, OOM under `ulimit -v`) gets `HANG`/`CRASH(...)`."""
+    import resource
+    os.makedirs(WORK, exist_ok=True)
+    inf = os.path.join(WORK, name + ".req")
+    outf = os.path.join(WORK, name + ".out")
+    with open(inf, "w") as f:
+        f.write("\n".join(requests) + "\n")
+    if os.path.exists(outf):
+        os.unlink(outf)
+    results = [None] * len(requests)
+
+    def limits():
+        resource.setrlimit(resource.RLIMIT_AS, (mem_gb << 30, mem_gb << 30))
+
+    def read_out():
+        started = -1
+        if not os.path.exists(outf):
+            return started
+        with open(outf, errors="replace") as f:
+            for line in f:
+                line = line.rstrip("\n")
+                if " ||| " not in line:
+                    continue
+                i, r = line.split(" ||| ", 1)
+                try:
+                    i = int(i)
+                except ValueError:
+                    continue
+                if r == "START":
+                    started = max(started, i)
+                elif 0 <= i < len(results):
+                    results[i] = r
+        return started
+
+    start = 0
+    while start < len(requests):
+        p = subprocess.Popen([HARNESS_BIN, "eval", inf, outf, str(start)], preexec_fn=limits, env=ENV,
+                             stdout=subprocess.DEVNULL, stderr=subprocess.PIPE)
+        last_done, last_change = -1, time.time()
+        verdict = None
+        while True:
+            rc = p.poll()
+            started = read_out()
+            done = max([i for i in range(start, len(results)) if results[i] is not None], default=start - 1)
+            if done != last_done:
+                last_done, last_change = done, time.time()
+            if rc is not None:
+                if rc != 0:
+                    verdict = f"CRASH(rc={rc})"
+                break
+            if time.time() - last_change > item_timeout:
+                p.kill()
+                p.wait()
+                verdict = "HANG"
+                break
+            time.sleep(0.05)
+        started = read_out()
+        if verdict is None:
+            break
+        stuck = started if started >= 0 and results[started] is None else None
+        if stuck is None:
+            # died between items; resume after the last completed one
+            nxt = max([i for i in range(len(results)) if results[i] is not None], default=start - 1) + 1
+            if nxt <= start:
+                results[start] = verdict
+                nxt = start + 1
+            start = nxt
+        else:
+            results[stuck] = verdict
+            start = stuck + 1
+    return [r if r is not None else "NOT-EVALUATED" for r in results]
+
+
 def parse_num(tok):
     """Parse a model/harness numeric token exactly: int, p/q, or M@E."""
     if "@" in tok:
